@@ -81,6 +81,27 @@ def run(ctx):
                "only the result vector is carried between candidate positions" if not extra else "state %s is carried from one candidate position to the next" % extra)
     ctx.require(okn, "T3-canonical-rejects-smaller", ic.name, "return false", "a table is rejected exactly when a re-basing compares smaller (< 0)", "is_canonical's `false` is not guarded by compare_renumbered_from(..) < 0")
 
+    # (1c) orderly generation needs ONE slot order: the next slot to fill (first_free_in_table) and the lexicographic comparison of
+    # renumbered tables (compare_renumbered_from) enumerate rows 0..len() and, within a row, the letters in the order of the same source
+    ctx.clauses.append("the search order of free slots is the comparison order of the canonicity test: both take the letters from table.all_gens(), rows from 0 (T4)")
+    ff = ctx.body("fpgroups::cosets::first_free_in_table")
+    cr = ctx.body("fpgroups::cosets::compare_renumbered_from")
+    ctx.scan([ff, cr])
+    for b_ in (ff, cr):
+        tb = ("param", 1, b_.debug.get(1, ""))
+        srcs = []
+        for bi, t in b_.calls(exact="fpgroups::cosets::CosetTable::get"):
+            gt = norm(b_.origin(t["args"][2]), g)
+            src = iter_source(b_, gt, g)
+            srcs.append(norm(src, g) if isinstance(src, tuple) else None)
+        oks = bool(srcs) and all(x is not None and contains(x, lambda y: y == ("call", "fpgroups::cosets::CosetTable::all_gens", (tb,))) for x in srcs)
+        ctx.ob("T4-one-slot-order", b_.name, "letters from table.all_gens()", "ok" if oks else "violation",
+               "every table lookup takes its letter from table.all_gens()" if oks else
+               "the letters do not come from table.all_gens() (%s): the order in which free slots are filled and the order in which renumbered tables are compared can differ, "
+               "and the canonicity filter discards branches that still contain canonical tables" % [show(x, 1)[:50] if x else None for x in srcs])
+    r0 = [loop_range_of_payload(ff, norm(ff.origin(t["args"][1]), g), g) for bi, t in ff.calls(exact="fpgroups::cosets::CosetTable::get")]
+    okr = bool(r0) and all(r is not None and r[0] == ("int", 0) and not r[2] and is_call(r[1], "CosetTable::len") for r in r0)
+    ctx.ob("T4-one-slot-order", ff.name, "rows 0..len()", "ok" if okr else "violation", "rows are searched in the order 0..table.len()" if okr else "first_free_in_table does not search the rows 0..table.len() in order")
     # (2) derived_table
     ctx.clauses.append("a contradiction rejects the node; deductions are joined (T3)")
     sbw = [norm(dt.local_origin(t["dest"]["l"]), g) for bi, t in dt.calls(exact="fpgroups::cosets::scan_both_ways") if not t["dest"]["p"]]
